@@ -46,7 +46,7 @@ func TestMempoolGossip(t *testing.T) {
 	if in.Txs == 0 {
 		in.Txs = 12
 	}
-	u := newUniverse("U", vh.Seed())
+	u := newUniverse("G", vh.Seed())
 	nodes := pubsubtestutils.BuildNetworks(t, pubsubtestutils.LineNetworkConfig(in.Nodes))
 	ctx, cancel := context.WithCancel(context.Background())
 	var wg sync.WaitGroup
@@ -92,22 +92,22 @@ func TestMempoolGossip(t *testing.T) {
 	}
 	// let the mesh form: the broadcaster loops sleep two heartbeat delays before they publish
 	time.Sleep(500 * time.Millisecond)
-	// The sender adapts every invoke as "InvokeV3" whatever its version; the resulting message of a
-	// v1 invoke has no resource bounds and makes the RECEIVER's hash check dereference nil
-	// (recorded as an observation by TestMempoolProbes); only transactions a node can legitimately
-	// have accepted for gossip are sent here.
-	var ids []int
-	for id := 1; id <= len(u.txs) && len(ids) < in.Txs; id++ {
-		if _, isInvoke := u.txs[id-1].Transaction.(*core.InvokeTransaction); !isInvoke || travels(id) {
-			ids = append(ids, id)
-		}
-	}
-	for k, id := range ids {
-		origin := k % in.Nodes
+	// every fourth transaction is refused by its origin (sender not deployed): it must not travel
+	refused := 0
+	for k := 0; k < in.Txs && k < len(u.txs); k++ {
+		id, origin := k+1, (k/4+k)%in.Nodes
 		o := classify(p2ps[origin].Push(ctx, u.fresh(id)))
-		if o != "ok" {
-			out.Diverge(vh.Divergence{Key: "mempool-gossip:push", What: fmt.Sprintf("P2P.Push(%d) at node %d = %s", id, origin, o), Input: in})
+		want := "ok"
+		if u.specs[id-1].Sender == 0 && u.specs[id-1].Kind == "invoke" {
+			want = "nostate"
+		}
+		if o != want {
+			out.Diverge(vh.Divergence{Key: "mempool-gossip:push", What: fmt.Sprintf("P2P.Push(%d) at node %d = %s, expected %s", id, origin, o, want), Input: in})
 			return
+		}
+		if o != "ok" {
+			refused++
+			continue
 		}
 		local[origin][id] = true
 		if travels(id) {
@@ -118,9 +118,13 @@ func TestMempoolGossip(t *testing.T) {
 			}
 		}
 	}
+	out.Count("gossip_refused_at_origin", refused)
 	// a rejected transaction (legacy deploy is not in U; use a duplicate-free invalid one: nonce below the head is impossible at genesis) —
 	// push one the pool refuses for capacity instead: not applicable with Max = 64. The refusal path is covered by P2P.Push's code shape
 	// in the sequential replay (same Push); here: delivery.
+	// Nothing is popped while the messages travel (a node's own message comes back to it through
+	// its own subscription: whether the pool takes it a second time is the duplicate question, and
+	// a pool that has handed the first copy out already could not know). Arrival is seen in Len().
 	got := make([]map[int]int, in.Nodes)
 	for i := range got {
 		got[i] = map[int]int{}
@@ -129,39 +133,29 @@ func TestMempoolGossip(t *testing.T) {
 	for {
 		done := true
 		for i, s := range suts {
-			txs, err := s.pool.PopBatch(1 << 10)
-			if err == nil {
-				r := popResult(u, txs, nil)
-				if r.Kind != "txs" {
-					out.Diverge(vh.Divergence{Key: "mempool-gossip:changed", What: fmt.Sprintf("node %d received a transaction that is not what was pushed: %s", i, r.Kind), Input: in})
-					return
-				}
-				for _, id := range r.Txs {
-					got[i][id]++
-				}
-			}
-			for id := range expect[i] {
-				if got[i][id] == 0 {
-					done = false
-				}
+			if s.pool.Len() < len(local[i])+len(expect[i]) {
+				done = false
 			}
 		}
-		if done {
-			break
-		}
-		if time.Now().After(deadline) {
+		if done || time.Now().After(deadline) {
 			break
 		}
 		time.Sleep(5 * time.Millisecond)
 	}
 	// grace period: duplicates or strays would arrive now
-	time.Sleep(300 * time.Millisecond)
+	time.Sleep(400 * time.Millisecond)
 	for i, s := range suts {
-		if txs, err := s.pool.PopBatch(1 << 10); err == nil {
-			ids, _ := idsOf(u, txs)
-			for _, id := range ids {
-				got[i][id]++
-			}
+		txs, err := s.pool.PopBatch(1 << 10)
+		if err != nil {
+			continue
+		}
+		r := popResult(u, txs, nil)
+		if r.Kind != "txs" {
+			out.Diverge(vh.Divergence{Key: "mempool-gossip:changed", What: fmt.Sprintf("node %d received a transaction that is not what was pushed: %s", i, r.Kind), Input: in})
+			return
+		}
+		for _, id := range r.Txs {
+			got[i][id]++
 		}
 	}
 	for i := range suts {
@@ -171,13 +165,22 @@ func TestMempoolGossip(t *testing.T) {
 				missing = append(missing, id)
 			}
 		}
+		var echo []int
 		for id, n := range got[i] {
 			switch {
 			case !expect[i][id] && !local[i][id]:
 				stray = append(stray, id)
+			case n > 1 && local[i][id]:
+				echo = append(echo, id)
 			case n > 1:
 				dup = append(dup, id)
 			}
+		}
+		sort.Ints(echo)
+		if len(echo) > 0 {
+			out.Diverge(vh.Divergence{Key: "mempool-dup:gossip-echo", Input: in,
+				What: fmt.Sprintf("node %d holds its own transactions %v twice: gossipsub delivers a node's own message to its own subscription, the listener "+
+					"pushes it into the pool again and Push does not notice that it is already there", i, echo)})
 		}
 		sort.Ints(missing)
 		sort.Ints(dup)
